@@ -425,6 +425,10 @@ var targetedC20 = []struct {
 		"(defn fct [] (let [za 1 Za 2 zA 3 ZA 4] (_closdump (fn [] za))))"}},
 	// output that does not end in a newline belongs to the interpreter that wrote it
 	{"print-without-newline", false, []string{"(print \"count: \")", "(println 3)", "(printf \"%v and \" 4)", "(println \"more\")", "(print \"done\")"}},
+	// what a builtin returns belongs to the caller: changing it must not show in later calls or later interpreters
+	{"change-what-builtins-return", true, []string{"(def sn (snoopy cry: \"a\"))", "(def ml (methodls sn))", "(cond (> (len ml) 0) (aset ml 0 \"changed\") nil)", "(str (methodls (snoopy)))",
+		"(def fl (fieldls sn))", "(cond (> (len fl) 0) (aset fl 0 \"changed\") nil)", "(str (fieldls (snoopy)))", "(str (_method sn NoSuchMethod:))",
+		"(def hk (keys (hash a: 1 b: 2)))", "(aset hk 0 (quote zz))", "(str (keys (hash a: 1 b: 2)))"}},
 	{"defmap-then-struct", false, []string{"(defmap Dl1)", "(def dr (Dl1 a: 1))", "(struct Dl1 [(field b: string)])", "(str dr)"}},
 	{"compare-records", false, []string{
 		"(def ra (hash a: 1 b: \"x\" c: [1 2] d: 2.5 e: true f: 7 g: 8 h: 9))", "(def rb (hash a: 2 b: 3 c: \"y\" d: (hash) e: nil f: 6 g: 9 h: 1))",
